@@ -87,6 +87,7 @@ Proof.
   destruct (store_get (t2 (dbs s)) id None) as [[e k0]| |] eqn:Eg; try discriminate.
   apply store_get_ok in Eg as [Le ->].
   destruct (opt_is_some (rto e)) eqn:Rto; [discriminate|].
+  destruct (mem id (rejd (dbs s))); [discriminate|].
   destruct (negb (rk e =? r2_rk c)); [discriminate|].
   destruct (negb (hk e =? r2_hk c)); [discriminate|].
   destruct (negb (wstart e =? r2_ph c)); [discriminate|].
@@ -219,6 +220,7 @@ Proof.
   destruct (negb wf); [discriminate|]. unfold mbind in E.
   destruct (store_get (t2 (dbs s)) old None) as [[e k0]| |] eqn:Eg; try discriminate.
   apply store_get_ok in Eg as [Le ->].
+  destruct (mem old (rejd (dbs s))); [discriminate|].
   destruct (negb (r2_fsize c =? fsize e)) eqn:Efs; [discriminate|].
   destruct (negb (r2_cap c =? cap e)); [discriminate|].
   destruct (negb (r2_mroot c =? mroot e)) eqn:Em1; [discriminate|].
@@ -318,6 +320,7 @@ Proof.
   - now apply inv_restart.
   - destruct D.
   - destruct D.
+  - (* Reject *) cbn [step fst]. now apply (inv_simple meta s).
 Qed.
 
 Lemma inv_init : Inv init.
